@@ -2,12 +2,14 @@ module verif/harness
 
 go 1.25.0
 
-require github.com/blevesearch/bleve/v2 v2.0.0
+require (
+	github.com/blevesearch/bleve/v2 v2.0.0
+	github.com/blevesearch/bleve_index_api v1.4.0
+)
 
 require (
 	github.com/RoaringBitmap/roaring/v2 v2.14.5 // indirect
 	github.com/bits-and-blooms/bitset v1.24.2 // indirect
-	github.com/blevesearch/bleve_index_api v1.4.0 // indirect
 	github.com/blevesearch/geo v0.2.5 // indirect
 	github.com/blevesearch/go-porterstemmer v1.0.3 // indirect
 	github.com/blevesearch/gtreap v0.1.1 // indirect
